@@ -726,7 +726,7 @@ def do_step(w, ev):
                         kw["batchsize"] = cfg["bval"]
                     elif cfg["bmode"] == "count":
                         kw["num_batches"] = cfg["bval"]
-                consts = {"kattr": 7} if w.farmer_kind == "none" else None
+                consts = {"kattr": 7 + w.kver} if w.farmer_kind == "none" else None
                 if w.variant.get("resow_drop_consts") and w.farmer_kind == "none":
                     # the constants are given to the first sow only: a later sow without them passes none (as a direct run
                     # without constants= would); only used by histories that never grow
@@ -835,10 +835,11 @@ def do_step(w, ev):
                 w.farmer.harvest_combos({nm: [w.val(val)] for nm in w.names}, verbosity=0, **kw_)
             elif a == "change_const":
                 w.kver = 1
-                r = w.farmer if w.farmer_kind == "runner" else w.farmer.runner
-                c = dict(r.constants)
-                c["kattr"] = 7 + w.kver
-                r.constants = c
+                if w.farmer_kind != "none":       # (a crop without farmer gets its constants from the sow call)
+                    r = w.farmer if w.farmer_kind == "runner" else w.farmer.runner
+                    c = dict(r.constants)
+                    c["kattr"] = 7 + w.kver
+                    r.constants = c
             elif a == "delete":
                 os.remove(os.path.join(crop.location, "results", "xyz-result-%d.jbdmp" % args[0]))
             elif a == "corrupt":
